@@ -488,6 +488,12 @@ func gen(c *harness.C) []harness.Case {
 		return threadCases(c)
 	}
 	if r := c.Replay; r != nil {
+		var st struct {
+			Stall string `json:"stall"`
+		}
+		if json.Unmarshal(r, &st) == nil && st.Stall != "" {
+			return stallCases() // the driver names the case it wants (VERIF_ONLY)
+		}
 		var rp replay
 		if json.Unmarshal(r, &rp) == nil {
 			return []harness.Case{{ID: os.Getenv("VERIF_ONLY"), Run: func(c *harness.C) { runSeq(c, rp.Mode, rp.Seq) }}}
